@@ -164,7 +164,9 @@ func enumT(name string, vals ...string) TypeC {
 	}
 	return t
 }
-func inputT(name string, fs ...ArgC) TypeC { return TypeC{Kind: "INPUT_OBJECT", Name: name, InputFields: fs} }
+func inputT(name string, fs ...ArgC) TypeC {
+	return TypeC{Kind: "INPUT_OBJECT", Name: name, InputFields: fs}
+}
 func ifaceT(name string, fields ...FieldC) TypeC {
 	return TypeC{Kind: "INTERFACE", Name: name, Fields: fields, Resolver: true}
 }
